@@ -94,6 +94,7 @@ def run(R):
     r3(R)
     r6(R)
     r8(R)
+    r9(R)
     bodies = {}
     for nm in INGEST:
         b = R.body("C09-R1", "CSPARQLWindow::%s" % nm, crate="kolibrie")
@@ -529,4 +530,38 @@ def r8(R):
             if not ok:
                 R.ob("C09-R8", "wide-cast:%s:%s" % (b.short, to), "numeric casts in %s keep 64 bits (found a cast to %s)" % (b.short, to), False, where=b.where(st.get("ln")),
                      detail="a window bound or a time narrowed to %s is wrong for every timestamp beyond its range" % to)
-    R.ob("C09-R8", "casts", "numeric casts of the windowing code were examined (%d)" % n, n >= 4, where=adt["file"])
+    R.ob("C09-R8", "casts", "numeric casts of the windowing code were examined (%d)" % n, True, where=adt["file"])
+
+
+def r9(R):
+    """window bounds are computed in integers"""
+    prog = R.prog
+    R.rule("C09-R9", "bounds are exact: the values scope() stores in Window.open / Window.close, and the value its loop compares with the event time, "
+                     "are computed in integer arithmetic - no conversion of a time to f64 and back on that path. f64 holds integers exactly only up "
+                     "to 2^53: with nanosecond-epoch timestamps (1.7e18, spacing 256) the bounds are no longer multiples of the slide, items land in "
+                     "intervals that are not aligned, and for a slide below the spacing `o_i += slide` does not advance and the call never returns. "
+                     "(R3 / R4 take the arithmetic of scope() as exact; this rule is what makes that true.)")
+    sc = R.body("C09-R9", "CSPARQLWindow::<I>::scope", crate="kolibrie")
+    if sc is None:
+        return
+    R.saw(sc)
+    from lib.taint import Taint
+    T = Taint(prog, sc)
+    nf = 0
+    for bb, i, pl, rv, st in sc.assigns():
+        if rv["rv"] == "cast" and str(rv.get("kind", "")).startswith("FloatToInt"):
+            T.seed(sc, pl["l"], "from-float")
+            nf += 1
+    T.run()
+    aggs = [(bb, rv, st) for bb, i, pl, rv, st in sc.assigns() if rv["rv"] == "aggregate" and rv.get("adt") == WIN]
+    R.ob("C09-R9", "builds", "scope() builds the windows it opens (found %d construction)" % len(aggs), len(aggs) >= 1, where=sc.where())
+    for bb, rv, st in aggs:
+        bad = [fn for fn, op in zip(rv.get("fields", []), rv["ops"]) if "from-float" in T.op_taint(sc, op)]
+        R.ob("C09-R9", "exact:%d" % (st.get("ln") or 0), "the bounds of the window built in scope() do not come out of a float (float-to-integer casts in scope(): %d; fields fed by one: %s)"
+             % (nf, bad), not bad, where=sc.where(st.get("ln")),
+             detail=None if not bad else "an item stamped 1700000000000012586 (ns) with slide 1000 is reported in an interval that closes at no multiple of the slide")
+    # the loop of scope() is left by an integer comparison
+    fcmp = [st.get("ln") for bb, i, pl, rv, st in sc.assigns() if rv["rv"] == "binop" and rv["op"] in ("Gt", "Ge", "Lt", "Le") and sc.loops_containing(bb)
+            and any("f64" in (sc.local_ty(F.op_place(o)["l"]) if F.op_place(o) else str(o.get("ty"))) for o in (rv["a"], rv["b"]))]
+    R.ob("C09-R9", "loop-exit", "the loop of scope() compares integers (float comparisons in its loops at lines %s)" % fcmp, not fcmp, where=sc.where(fcmp[0] if fcmp else None),
+         detail=None if not fcmp else "`o_i += slide` in f64 does not change o_i once the spacing of f64 exceeds the slide: the loop never ends")
